@@ -31,6 +31,11 @@ Lemma pres_weaken {A} (P Q : A -> st -> Prop) (r : res A) :
   pres P r -> (forall a s, P a s -> Q a s) -> pres Q r.
 Proof. destruct r; simpl; auto. Qed.
 
+Lemma pres_if_true {A} (Q : A -> st -> Prop) (c : bool) (a b : res A) : c = true -> pres Q a -> pres Q (if c then a else b).
+Proof. intros ->. auto. Qed.
+Lemma pres_if_false {A} (Q : A -> st -> Prop) (c : bool) (a b : res A) : c = false -> pres Q b -> pres Q (if c then a else b).
+Proof. intros ->. auto. Qed.
+
 (* ---- quiet extension: s' was reached from s by recording only bus events, with the same registrations and the
    same value in every field outside W ---- *)
 Definition quiet (s s' : st) : Prop := exists t, trace s' = t ++ trace s /\ cbs t = [].
